@@ -82,7 +82,7 @@ type lpIn struct {
 	Pods   []lpPod `json:"pods"`
 }
 
-func sp(s string) *string { return &s }
+func labelpatchSp(s string) *string { return &s }
 
 func lpStr(p *string) interface{} {
 	if p == nil {
@@ -326,12 +326,12 @@ func lpScramble(id string, pods []lpPod) []lpPod {
 		}
 		if rid != id {
 			if p.Bid != nil && *p.Bid == "1" {
-				p.Bid = sp("2")
+				p.Bid = labelpatchSp("2")
 			} else {
-				p.Bid = sp("1")
+				p.Bid = labelpatchSp("1")
 			}
 			if p.Rid == nil {
-				p.Rid = sp("zz-" + id)
+				p.Rid = labelpatchSp("zz-" + id)
 			} else {
 				p.Rid = nil
 			}
@@ -503,7 +503,7 @@ func lpGenCase(c *Ctx) *lpIn {
 	newRS := lpRS{Name: "rs-new", Image: "img:" + lpPick(c, "2", "3")}
 	oldRS := lpRS{Name: "rs-old", Image: "img:1"}
 	if r.Intn(3) == 0 {
-		newRS.TmplLabel = sp("tmpl-new")
+		newRS.TmplLabel = labelpatchSp("tmpl-new")
 	}
 	newHash := newRS.hash()
 	switch kind {
@@ -543,30 +543,30 @@ func lpGenCase(c *Ctx) *lpIn {
 			p.Name = fmt.Sprintf("cs-%s", string(rune('a'+i)))
 			p.Owner = &lpOwner{Other: "CloneSet"}
 			if rev < 14 {
-				p.Ctrl = sp("rev-new")
+				p.Ctrl = labelpatchSp("rev-new")
 			} else if rev < 19 {
-				p.Ctrl = sp("rev-old")
+				p.Ctrl = labelpatchSp("rev-old")
 			}
 		case 1:
 			p.Name = fmt.Sprintf("dep-%s", string(rune('a'+i)))
 			if rev < 14 {
-				p.Tmpl = sp("tmpl-new")
+				p.Tmpl = labelpatchSp("tmpl-new")
 				p.Owner = &lpOwner{RS: "rs-new", UID: "uid-new"}
 			} else if rev < 19 {
-				p.Tmpl = sp("tmpl-old")
+				p.Tmpl = labelpatchSp("tmpl-old")
 				p.Owner = &lpOwner{RS: "rs-old", UID: "uid-old"}
 			} else if r.Intn(2) == 0 {
 				p.Owner = &lpOwner{RS: "rs-gone", UID: "uid-gone"}
 			}
 			switch x := r.Intn(20); {
 			case x < 5 && p.Owner != nil && p.Owner.RS == "rs-new":
-				p.Ctrl = sp(newHash) // already patched
+				p.Ctrl = labelpatchSp(newHash) // already patched
 			case x < 5 && p.Owner != nil && p.Owner.RS == "rs-old":
-				p.Ctrl = sp(oldRS.hash())
+				p.Ctrl = labelpatchSp(oldRS.hash())
 			case x == 5:
-				p.Ctrl = sp("")
+				p.Ctrl = labelpatchSp("")
 			case x == 6:
-				p.Ctrl = sp("stale-hash")
+				p.Ctrl = labelpatchSp("stale-hash")
 			}
 			if r.Intn(40) == 0 && p.Owner != nil { // incoherent owner reference: UID of one set, name of the other
 				p.Owner.UID = lpPick(c, "uid-new", "uid-old")
@@ -575,26 +575,26 @@ func lpGenCase(c *Ctx) *lpIn {
 			p.Name = fmt.Sprintf("sts-%d", ords[i])
 			p.Owner = &lpOwner{Other: "StatefulSet"}
 			if rev < 14 {
-				p.Ctrl = sp("sts-rev-new")
+				p.Ctrl = labelpatchSp("sts-rev-new")
 			} else if rev < 19 {
-				p.Ctrl = sp("sts-rev-old")
+				p.Ctrl = labelpatchSp("sts-rev-old")
 			}
 		}
 		switch x := r.Intn(100); {
 		case x < 45:
 		case x < 75:
-			p.Rid, p.Bid = sp(id), sp(fmt.Sprint(1+r.Intn(nb)))
+			p.Rid, p.Bid = labelpatchSp(id), labelpatchSp(fmt.Sprint(1+r.Intn(nb)))
 		case x < 83:
-			p.Rid, p.Bid = sp(id), sp(lpWeirdBids[r.Intn(len(lpWeirdBids))])
+			p.Rid, p.Bid = labelpatchSp(id), labelpatchSp(lpWeirdBids[r.Intn(len(lpWeirdBids))])
 		case x < 93:
-			p.Rid, p.Bid = sp(oldID), sp(fmt.Sprint(1+r.Intn(nb+1)))
+			p.Rid, p.Bid = labelpatchSp(oldID), labelpatchSp(fmt.Sprint(1+r.Intn(nb+1)))
 		case x < 97:
-			p.Rid, p.Bid = sp(lpPick(c, "someone-else", "", "R1")), sp(lpWeirdBids[r.Intn(len(lpWeirdBids))])
+			p.Rid, p.Bid = labelpatchSp(lpPick(c, "someone-else", "", "R1")), labelpatchSp(lpWeirdBids[r.Intn(len(lpWeirdBids))])
 		default:
-			p.Rid = sp(id)
+			p.Rid = labelpatchSp(id)
 		}
 		if r.Intn(7) == 0 {
-			p.NoNeed = sp(lpPick(c, id, id, oldID))
+			p.NoNeed = labelpatchSp(lpPick(c, id, id, oldID))
 		}
 		p.Term = r.Intn(10) == 0
 		hashCandidate := p.Owner != nil && p.Owner.RS != "" && (p.Ctrl == nil || *p.Ctrl == "")
@@ -629,16 +629,16 @@ func lpExhaustive(c *Ctx, np int) {
 	}
 	alpha := []st{
 		{"rev-new", nil, nil, false, false},
-		{"rev-new", &id, sp("1"), false, false},
-		{"rev-new", &id, sp("2"), false, false},
-		{"rev-new", &id, sp("0"), false, false},
-		{"rev-new", &id, sp("3"), false, false},
-		{"rev-new", &id, sp("abc"), false, false},
-		{"rev-new", &old, sp("1"), false, false},
+		{"rev-new", &id, labelpatchSp("1"), false, false},
+		{"rev-new", &id, labelpatchSp("2"), false, false},
+		{"rev-new", &id, labelpatchSp("0"), false, false},
+		{"rev-new", &id, labelpatchSp("3"), false, false},
+		{"rev-new", &id, labelpatchSp("abc"), false, false},
+		{"rev-new", &old, labelpatchSp("1"), false, false},
 		{"rev-old", nil, nil, false, false},
-		{"rev-old", &id, sp("1"), false, false},
+		{"rev-old", &id, labelpatchSp("1"), false, false},
 		{"rev-new", nil, nil, true, false},
-		{"rev-new", &id, sp("1"), true, false},
+		{"rev-new", &id, labelpatchSp("1"), true, false},
 		{"rev-new", &id, nil, false, false},
 		{"rev-new", nil, nil, false, true},
 	}
@@ -655,7 +655,7 @@ func lpExhaustive(c *Ctx, np int) {
 			for i := 0; i < np; i++ {
 				a := alpha[x%len(alpha)]
 				x /= len(alpha)
-				in.Pods = append(in.Pods, lpPod{Name: fmt.Sprintf("p-%d", i), Ctrl: sp(a.ctrl), Rid: a.rid, Bid: a.bid,
+				in.Pods = append(in.Pods, lpPod{Name: fmt.Sprintf("p-%d", i), Ctrl: labelpatchSp(a.ctrl), Rid: a.rid, Bid: a.bid,
 					Term: a.term, Missing: a.missing, Owner: &lpOwner{Other: "CloneSet"}})
 			}
 			lpPatch(c, in)
@@ -672,10 +672,10 @@ func runLabelPatch(c *Ctx) {
 				Batches:   []map[string]interface{}{{"p": 25}, {"p": 100}},
 				Partition: map[string]interface{}{"i": 0}}}
 			in.Pods = []lpPod{
-				{Name: "p-0", Ctrl: sp("rev-new")},
-				{Name: "p-1", Ctrl: sp("rev-new"), Rid: sp("r1"), Bid: sp(bid)},
-				{Name: "p-2", Ctrl: sp("rev-new")},
-				{Name: "p-3", Ctrl: sp("rev-old"), Rid: sp("r1"), Bid: sp(bid)},
+				{Name: "p-0", Ctrl: labelpatchSp("rev-new")},
+				{Name: "p-1", Ctrl: labelpatchSp("rev-new"), Rid: labelpatchSp("r1"), Bid: labelpatchSp(bid)},
+				{Name: "p-2", Ctrl: labelpatchSp("rev-new")},
+				{Name: "p-3", Ctrl: labelpatchSp("rev-old"), Rid: labelpatchSp("r1"), Bid: labelpatchSp(bid)},
 			}
 			lpPatch(c, in)
 		}
